@@ -64,7 +64,14 @@ type KnownFile struct {
 	Fixed []string       `json:"fixed"`
 }
 
-const verifDir = "/verif"
+var verifDir = verifRoot()
+
+func verifRoot() string {
+	if d := os.Getenv("VERIF_DIR"); d != "" {
+		return d
+	}
+	return "/verif"
+}
 
 func loadSpecs() (map[string]*PropSpec, error) {
 	b, err := os.ReadFile(filepath.Join(verifDir, "harness", "checks.json"))
